@@ -156,6 +156,10 @@ def load_save(save_filename):
 # --------------------------------------------------------------------------
 # command line
 # --------------------------------------------------------------------------
+_CLI_SEEN = {}
+_CLI_LOCK = threading.Lock()
+
+
 def cli(repo_dir, script, args, stdin='open', timeout=120, input_text=None, on_timeout='raise'):
     """Run a repo script from a scratch copy.  stdin: 'open' (pipe kept open until exit), 'eof' (empty
     pipe), 'devnull', 'closed', 'text' (input_text then kept open).  Exit code is not reported as a
@@ -166,7 +170,10 @@ def cli(repo_dir, script, args, stdin='open', timeout=120, input_text=None, on_t
     # invocations - a limited and an unlimited run, a quit and its --load - never share one), and the tool's standard
     # output is block-buffered as it is for a user who pipes it into a cracker (the sandbox exports PYTHONUNBUFFERED)
     import zlib
-    env['PYTHONHASHSEED'] = str(zlib.crc32((script + ' ' + ' '.join(map(str, args))).encode('utf-8', 'replace')) % 4000000 + 1)
+    key_ = script + ' ' + ' '.join(map(str, args))
+    with _CLI_LOCK:
+        nth_ = _CLI_SEEN[key_] = _CLI_SEEN.get(key_, 0) + 1          # the n-th time this very command line is run
+    env['PYTHONHASHSEED'] = str((zlib.crc32(key_.encode('utf-8', 'replace')) + 7919 * nth_) % 4000000 + 1)
     env.pop('PYTHONUNBUFFERED', None)
     env['PYTHONIOENCODING'] = 'utf-8'
     cmd = [core.PY, os.path.join(repo_dir, script)] + list(args)
